@@ -1,4 +1,5 @@
 import Refinery.Model.Locks
+import Refinery.Gen.Access
 /-!
 # C35 — the hand-written specification: discipline of every tracked field, role of every function
 
@@ -21,269 +22,275 @@ Roles (`Refinery.Locks.Role`): `init` (runs before the object is used by any oth
 one goroutine at a time plays `r` for a given object), everything not listed is `any`.
 -/
 namespace Refinery.Locks.Table
-open Refinery.Locks
+open Refinery.Locks Refinery.Gen.Access
 
-def disciplines : List (String × LDisc) := [
+/-- Roles (one goroutine at a time per object instance). -/
+def worker : Nat := 1            -- CollectorWorker.collect, one per worker
+def collectorMonitor : Nat := 2  -- InMemCollector.monitor
+def stressMonitor : Nat := 3     -- the ticker goroutine StressRelief.Start spawns
+def sentcacheMonitor : Nat := 4  -- cuckooSentCache.monitor (Resize stops the old one, waits, starts a new one)
+
+def disciplines : List (Nat × LDisc) := [
   -- InMemCollector
-  ("InMemCollector.Config", .initOnly),
-  ("InMemCollector.Logger", .initOnly),
-  ("InMemCollector.Clock", .initOnly),
-  ("InMemCollector.Tracer", .initOnly),
-  ("InMemCollector.Health", .initOnly),
-  ("InMemCollector.Sharder", .initOnly),
-  ("InMemCollector.Transmission", .initOnly),
-  ("InMemCollector.PeerTransmission", .initOnly),
-  ("InMemCollector.PubSub", .initOnly),
-  ("InMemCollector.Metrics", .initOnly),
-  ("InMemCollector.SamplerFactory", .initOnly),
-  ("InMemCollector.StressRelief", .initOnly),
-  ("InMemCollector.Peers", .initOnly),
-  ("InMemCollector.TestMode", .initOnly),
-  ("InMemCollector.BlockOnAddSpan", .initOnly),
-  ("InMemCollector.workers", .initOnly),
-  ("InMemCollector.mutex", .atomic),
-  ("InMemCollector.monitorWG", .atomic),
-  ("InMemCollector.workersWG", .atomic),
-  ("InMemCollector.sendTracesWG", .atomic),
-  ("InMemCollector.reload", .initOnly),
-  ("InMemCollector.tracesToSend", .initOnly),
-  ("InMemCollector.done", .initOnly),
-  ("InMemCollector.hostname", .initOnly),
-  ("InMemCollector.memMetricSample", .confined "collector-monitor"),
+  (L.«InMemCollector.Config», .initOnly),
+  (L.«InMemCollector.Logger», .initOnly),
+  (L.«InMemCollector.Clock», .initOnly),
+  (L.«InMemCollector.Tracer», .initOnly),
+  (L.«InMemCollector.Health», .initOnly),
+  (L.«InMemCollector.Sharder», .initOnly),
+  (L.«InMemCollector.Transmission», .initOnly),
+  (L.«InMemCollector.PeerTransmission», .initOnly),
+  (L.«InMemCollector.PubSub», .initOnly),
+  (L.«InMemCollector.Metrics», .initOnly),
+  (L.«InMemCollector.SamplerFactory», .initOnly),
+  (L.«InMemCollector.StressRelief», .initOnly),
+  (L.«InMemCollector.Peers», .initOnly),
+  (L.«InMemCollector.TestMode», .initOnly),
+  (L.«InMemCollector.BlockOnAddSpan», .initOnly),
+  (L.«InMemCollector.workers», .initOnly),
+  (L.«InMemCollector.mutex», .atomic),
+  (L.«InMemCollector.monitorWG», .atomic),
+  (L.«InMemCollector.workersWG», .atomic),
+  (L.«InMemCollector.sendTracesWG», .atomic),
+  (L.«InMemCollector.reload», .initOnly),
+  (L.«InMemCollector.tracesToSend», .initOnly),
+  (L.«InMemCollector.done», .initOnly),
+  (L.«InMemCollector.hostname», .initOnly),
+  (L.«InMemCollector.memMetricSample», .confined collectorMonitor),
   -- CollectorWorker
-  ("CollectorWorker.ID", .initOnly),
-  ("CollectorWorker.parent", .initOnly),
-  ("CollectorWorker.incoming", .initOnly),
-  ("CollectorWorker.fromPeer", .initOnly),
-  ("CollectorWorker.sendEarly", .initOnly),
-  ("CollectorWorker.pause", .initOnly),
-  ("CollectorWorker.reload", .initOnly),
-  ("CollectorWorker.cache", .confined "worker"),
-  ("CollectorWorker.sampleCache", .initOnly),
-  ("CollectorWorker.datasetSamplers", .confined "worker"),
-  ("CollectorWorker.lastCacheSize", .atomic),
-  ("CollectorWorker.localSpansWaiting", .atomic),
-  ("CollectorWorker.localSpanReceived", .atomic),
-  ("CollectorWorker.localSpanProcessed", .confined "worker"),
-  ("CollectorWorker.healthCheckInAt", .atomic),
+  (L.«CollectorWorker.ID», .initOnly),
+  (L.«CollectorWorker.parent», .initOnly),
+  (L.«CollectorWorker.incoming», .initOnly),
+  (L.«CollectorWorker.fromPeer», .initOnly),
+  (L.«CollectorWorker.sendEarly», .initOnly),
+  (L.«CollectorWorker.pause», .initOnly),
+  (L.«CollectorWorker.reload», .initOnly),
+  (L.«CollectorWorker.cache», .confined worker),
+  (L.«CollectorWorker.sampleCache», .initOnly),
+  (L.«CollectorWorker.datasetSamplers», .confined worker),
+  (L.«CollectorWorker.lastCacheSize», .atomic),
+  (L.«CollectorWorker.localSpansWaiting», .atomic),
+  (L.«CollectorWorker.localSpanReceived», .atomic),
+  (L.«CollectorWorker.localSpanProcessed», .confined worker),
+  (L.«CollectorWorker.healthCheckInAt», .atomic),
   -- StressRelief
-  ("StressRelief.RefineryMetrics", .initOnly),
-  ("StressRelief.Config", .initOnly),
-  ("StressRelief.Logger", .initOnly),
-  ("StressRelief.Health", .initOnly),
-  ("StressRelief.PubSub", .initOnly),
-  ("StressRelief.Peer", .initOnly),
-  ("StressRelief.Clock", .initOnly),
-  ("StressRelief.Done", .initOnly),
-  ("StressRelief.mode", .lock "StressRelief.lock"),
-  ("StressRelief.hostID", .initOnly),
-  ("StressRelief.activateLevel", .lock "StressRelief.lock"),
-  ("StressRelief.deactivateLevel", .lock "StressRelief.lock"),
-  ("StressRelief.sampleRate", .lock "StressRelief.lock"),
-  ("StressRelief.upperBound", .lock "StressRelief.lock"),
-  ("StressRelief.overallStressLevel", .lock "StressRelief.lock"),
-  ("StressRelief.reason", .lock "StressRelief.lock"),
-  ("StressRelief.formula", .ownedLock "stress-monitor" "StressRelief.lock"),
-  ("StressRelief.stressed", .lock "StressRelief.lock"),
-  ("StressRelief.stayOnUntil", .lock "StressRelief.lock"),
-  ("StressRelief.minDuration", .lock "StressRelief.lock"),
-  ("StressRelief.topic", .initOnly),
-  ("StressRelief.algorithms", .initOnly),
-  ("StressRelief.lock", .atomic),
-  ("StressRelief.stressLevels", .lock "StressRelief.lock"),
-  ("StressRelief.disableStressLevelReport", .initOnly),
+  (L.«StressRelief.RefineryMetrics», .initOnly),
+  (L.«StressRelief.Config», .initOnly),
+  (L.«StressRelief.Logger», .initOnly),
+  (L.«StressRelief.Health», .initOnly),
+  (L.«StressRelief.PubSub», .initOnly),
+  (L.«StressRelief.Peer», .initOnly),
+  (L.«StressRelief.Clock», .initOnly),
+  (L.«StressRelief.Done», .initOnly),
+  (L.«StressRelief.mode», .lock L.«StressRelief.lock»),
+  (L.«StressRelief.hostID», .initOnly),
+  (L.«StressRelief.activateLevel», .lock L.«StressRelief.lock»),
+  (L.«StressRelief.deactivateLevel», .lock L.«StressRelief.lock»),
+  (L.«StressRelief.sampleRate», .lock L.«StressRelief.lock»),
+  (L.«StressRelief.upperBound», .lock L.«StressRelief.lock»),
+  (L.«StressRelief.overallStressLevel», .lock L.«StressRelief.lock»),
+  (L.«StressRelief.reason», .lock L.«StressRelief.lock»),
+  (L.«StressRelief.formula», .ownedLock stressMonitor L.«StressRelief.lock»),
+  (L.«StressRelief.stressed», .lock L.«StressRelief.lock»),
+  (L.«StressRelief.stayOnUntil», .lock L.«StressRelief.lock»),
+  (L.«StressRelief.minDuration», .lock L.«StressRelief.lock»),
+  (L.«StressRelief.topic», .initOnly),
+  (L.«StressRelief.algorithms», .initOnly),
+  (L.«StressRelief.lock», .atomic),
+  (L.«StressRelief.stressLevels», .lock L.«StressRelief.lock»),
+  (L.«StressRelief.disableStressLevelReport», .initOnly),
   -- CuckooTraceChecker
-  ("CuckooTraceChecker.current", .lock "CuckooTraceChecker.mut"),
-  ("CuckooTraceChecker.current*", .lock "CuckooTraceChecker.mut"),
-  ("CuckooTraceChecker.future", .ownedLock "sentcache-monitor" "CuckooTraceChecker.mut"),
-  ("CuckooTraceChecker.future*", .lock "CuckooTraceChecker.mut"),
-  ("CuckooTraceChecker.mut", .atomic),
-  ("CuckooTraceChecker.capacity", .lock "CuckooTraceChecker.mut"),
-  ("CuckooTraceChecker.met", .initOnly),
-  ("CuckooTraceChecker.addch", .initOnly),
-  ("CuckooTraceChecker.done", .initOnly),
-  ("CuckooTraceChecker.shutdownWG", .atomic),
+  (L.«CuckooTraceChecker.current», .lock L.«CuckooTraceChecker.mut»),
+  (L.«CuckooTraceChecker.current*», .lock L.«CuckooTraceChecker.mut»),
+  (L.«CuckooTraceChecker.future», .ownedLock sentcacheMonitor L.«CuckooTraceChecker.mut»),
+  (L.«CuckooTraceChecker.future*», .lock L.«CuckooTraceChecker.mut»),
+  (L.«CuckooTraceChecker.mut», .atomic),
+  (L.«CuckooTraceChecker.capacity», .lock L.«CuckooTraceChecker.mut»),
+  (L.«CuckooTraceChecker.met», .initOnly),
+  (L.«CuckooTraceChecker.addch», .initOnly),
+  (L.«CuckooTraceChecker.done», .initOnly),
+  (L.«CuckooTraceChecker.shutdownWG», .atomic),
   -- cuckooSentCache
-  ("cuckooSentCache.met", .initOnly),
-  ("cuckooSentCache.kept", .initOnly),
-  ("cuckooSentCache.dropped", .initOnly),
-  ("cuckooSentCache.recentDroppedIDs", .initOnly),
-  ("cuckooSentCache.cfg", .initOnly),
-  ("cuckooSentCache.done", .initOnly),
-  ("cuckooSentCache.shutdownWG", .atomic),
-  ("cuckooSentCache.keptReasons", .initOnly),
+  (L.«cuckooSentCache.met», .initOnly),
+  (L.«cuckooSentCache.kept», .initOnly),
+  (L.«cuckooSentCache.dropped», .initOnly),
+  (L.«cuckooSentCache.recentDroppedIDs», .initOnly),
+  (L.«cuckooSentCache.cfg», .initOnly),
+  (L.«cuckooSentCache.done», .initOnly),
+  (L.«cuckooSentCache.shutdownWG», .atomic),
+  (L.«cuckooSentCache.keptReasons», .initOnly),
   -- Router
-  ("Router.Config", .initOnly),
-  ("Router.Logger", .initOnly),
-  ("Router.Health", .initOnly),
-  ("Router.HTTPTransport", .initOnly),
-  ("Router.UpstreamTransmission", .initOnly),
-  ("Router.PeerTransmission", .initOnly),
-  ("Router.Sharder", .initOnly),
-  ("Router.Collector", .initOnly),
-  ("Router.Metrics", .initOnly),
-  ("Router.Tracer", .initOnly),
-  ("Router.versionStr", .initOnly),
-  ("Router.proxyClient", .initOnly),
-  ("Router.routerType", .initOnly),
-  ("Router.iopLogger", .initOnly),
-  ("Router.zstdDecoder", .initOnly),
-  ("Router.server", .initOnly),
-  ("Router.grpcServer", .initOnly),
-  ("Router.doneWG", .atomic),
-  ("Router.donech", .initOnly),
-  ("Router.environmentCache", .initOnly),
-  ("Router.hsrv", .initOnly),
-  ("Router.metricsNames", .initOnly),
+  (L.«Router.Config», .initOnly),
+  (L.«Router.Logger», .initOnly),
+  (L.«Router.Health», .initOnly),
+  (L.«Router.HTTPTransport», .initOnly),
+  (L.«Router.UpstreamTransmission», .initOnly),
+  (L.«Router.PeerTransmission», .initOnly),
+  (L.«Router.Sharder», .initOnly),
+  (L.«Router.Collector», .initOnly),
+  (L.«Router.Metrics», .initOnly),
+  (L.«Router.Tracer», .initOnly),
+  (L.«Router.versionStr», .initOnly),
+  (L.«Router.proxyClient», .initOnly),
+  (L.«Router.routerType», .initOnly),
+  (L.«Router.iopLogger», .initOnly),
+  (L.«Router.zstdDecoder», .initOnly),
+  (L.«Router.server», .initOnly),
+  (L.«Router.grpcServer», .initOnly),
+  (L.«Router.doneWG», .atomic),
+  (L.«Router.donech», .initOnly),
+  (L.«Router.environmentCache», .initOnly),
+  (L.«Router.hsrv», .initOnly),
+  (L.«Router.metricsNames», .initOnly),
   -- environmentCache
-  ("environmentCache.mutex", .atomic),
-  ("environmentCache.items", .lock "environmentCache.mutex"),
-  ("environmentCache.ttl", .initOnly),
-  ("environmentCache.getFn", .initOnly),
-  ("environmentCache.addItem()", .lock "environmentCache.mutex"),   -- call sites of addItem (requires mutex)
+  (L.«environmentCache.mutex», .atomic),
+  (L.«environmentCache.items», .lock L.«environmentCache.mutex»),
+  (L.«environmentCache.ttl», .initOnly),
+  (L.«environmentCache.getFn», .initOnly),
+  (L.«environmentCache.addItem()», .lock L.«environmentCache.mutex»),   -- call sites of addItem (requires mutex)
   -- eventBatch
-  ("eventBatch.mutex", .atomic),
-  ("eventBatch.events", .lock "eventBatch.mutex"),
-  ("eventBatch.startTime", .lock "eventBatch.mutex"),
+  (L.«eventBatch.mutex», .atomic),
+  (L.«eventBatch.events», .lock L.«eventBatch.mutex»),
+  (L.«eventBatch.startTime», .lock L.«eventBatch.mutex»),
   -- DirectTransmission
-  ("DirectTransmission.Config", .initOnly),
-  ("DirectTransmission.Logger", .initOnly),
-  ("DirectTransmission.Version", .initOnly),
-  ("DirectTransmission.Metrics", .initOnly),
-  ("DirectTransmission.Transport", .initOnly),
-  ("DirectTransmission.Clock", .initOnly),
-  ("DirectTransmission.transmitType", .initOnly),
-  ("DirectTransmission.enableCompression", .initOnly),
-  ("DirectTransmission.maxBatchSize", .initOnly),
-  ("DirectTransmission.batchTimeout", .initOnly),
-  ("DirectTransmission.batchSendTimeout", .initOnly),
-  ("DirectTransmission.additionalHeaders", .initOnly),
-  ("DirectTransmission.eventBatches", .lock "DirectTransmission.batchMutex"),
-  ("DirectTransmission.batchMutex", .atomic),
-  ("DirectTransmission.dispatchPool", .initOnly),
-  ("DirectTransmission.stop", .initOnly),
-  ("DirectTransmission.stopWG", .atomic),
-  ("DirectTransmission.httpClient", .initOnly),
-  ("DirectTransmission.userAgent", .initOnly),
-  ("DirectTransmission.metricKeys", .initOnly),
+  (L.«DirectTransmission.Config», .initOnly),
+  (L.«DirectTransmission.Logger», .initOnly),
+  (L.«DirectTransmission.Version», .initOnly),
+  (L.«DirectTransmission.Metrics», .initOnly),
+  (L.«DirectTransmission.Transport», .initOnly),
+  (L.«DirectTransmission.Clock», .initOnly),
+  (L.«DirectTransmission.transmitType», .initOnly),
+  (L.«DirectTransmission.enableCompression», .initOnly),
+  (L.«DirectTransmission.maxBatchSize», .initOnly),
+  (L.«DirectTransmission.batchTimeout», .initOnly),
+  (L.«DirectTransmission.batchSendTimeout», .initOnly),
+  (L.«DirectTransmission.additionalHeaders», .initOnly),
+  (L.«DirectTransmission.eventBatches», .lock L.«DirectTransmission.batchMutex»),
+  (L.«DirectTransmission.batchMutex», .atomic),
+  (L.«DirectTransmission.dispatchPool», .initOnly),
+  (L.«DirectTransmission.stop», .initOnly),
+  (L.«DirectTransmission.stopWG», .atomic),
+  (L.«DirectTransmission.httpClient», .initOnly),
+  (L.«DirectTransmission.userAgent», .initOnly),
+  (L.«DirectTransmission.metricKeys», .initOnly),
   -- RedisPubsubPeers
-  ("RedisPubsubPeers.Config", .initOnly),
-  ("RedisPubsubPeers.Metrics", .initOnly),
-  ("RedisPubsubPeers.Logger", .initOnly),
-  ("RedisPubsubPeers.PubSub", .initOnly),
-  ("RedisPubsubPeers.Clock", .initOnly),
-  ("RedisPubsubPeers.InstanceID", .initOnly),
-  ("RedisPubsubPeers.Done", .initOnly),
-  ("RedisPubsubPeers.peers", .initOnly),
-  ("RedisPubsubPeers.hash", .atomic),
-  ("RedisPubsubPeers.callbacks", .initOnly),
-  ("RedisPubsubPeers.sub", .initOnly),
-  ("RedisPubsubPeers.topic", .initOnly),
+  (L.«RedisPubsubPeers.Config», .initOnly),
+  (L.«RedisPubsubPeers.Metrics», .initOnly),
+  (L.«RedisPubsubPeers.Logger», .initOnly),
+  (L.«RedisPubsubPeers.PubSub», .initOnly),
+  (L.«RedisPubsubPeers.Clock», .initOnly),
+  (L.«RedisPubsubPeers.InstanceID», .initOnly),
+  (L.«RedisPubsubPeers.Done», .initOnly),
+  (L.«RedisPubsubPeers.peers», .initOnly),
+  (L.«RedisPubsubPeers.hash», .atomic),
+  (L.«RedisPubsubPeers.callbacks», .initOnly),
+  (L.«RedisPubsubPeers.sub», .initOnly),
+  (L.«RedisPubsubPeers.topic», .initOnly),
   -- fileConfig
-  ("fileConfig.mainConfig", .lock "fileConfig.mux"),
-  ("fileConfig.mainHash", .lock "fileConfig.mux"),
-  ("fileConfig.rulesConfig", .lock "fileConfig.mux"),
-  ("fileConfig.rulesHash", .lock "fileConfig.mux"),
-  ("fileConfig.opts", .initOnly),
-  ("fileConfig.callbacks", .lock "fileConfig.mux"),
-  ("fileConfig.mux", .atomic),
-  ("fileConfig.lastLoadTime", .initOnly),
+  (L.«fileConfig.mainConfig», .lock L.«fileConfig.mux»),
+  (L.«fileConfig.mainHash», .lock L.«fileConfig.mux»),
+  (L.«fileConfig.rulesConfig», .lock L.«fileConfig.mux»),
+  (L.«fileConfig.rulesHash», .lock L.«fileConfig.mux»),
+  (L.«fileConfig.opts», .initOnly),
+  (L.«fileConfig.callbacks», .lock L.«fileConfig.mux»),
+  (L.«fileConfig.mux», .atomic),
+  (L.«fileConfig.lastLoadTime», .initOnly),
   -- ConfigWatcher
-  ("ConfigWatcher.Config", .initOnly),
-  ("ConfigWatcher.Logger", .initOnly),
-  ("ConfigWatcher.PubSub", .initOnly),
-  ("ConfigWatcher.Tracer", .initOnly),
-  ("ConfigWatcher.Clock", .initOnly),
-  ("ConfigWatcher.subscr", .initOnly),
-  ("ConfigWatcher.msgTime", .lock "ConfigWatcher.mut"),
-  ("ConfigWatcher.done", .initOnly),
-  ("ConfigWatcher.mut", .atomic),
-  ("ConfigWatcher.topic", .initOnly),
-  ("ConfigWatcher.Starter", .initOnly),
-  ("ConfigWatcher.Stopper", .initOnly),
+  (L.«ConfigWatcher.Config», .initOnly),
+  (L.«ConfigWatcher.Logger», .initOnly),
+  (L.«ConfigWatcher.PubSub», .initOnly),
+  (L.«ConfigWatcher.Tracer», .initOnly),
+  (L.«ConfigWatcher.Clock», .initOnly),
+  (L.«ConfigWatcher.subscr», .initOnly),
+  (L.«ConfigWatcher.msgTime», .lock L.«ConfigWatcher.mut»),
+  (L.«ConfigWatcher.done», .initOnly),
+  (L.«ConfigWatcher.mut», .atomic),
+  (L.«ConfigWatcher.topic», .initOnly),
+  (L.«ConfigWatcher.Starter», .initOnly),
+  (L.«ConfigWatcher.Stopper», .initOnly),
   -- MultiMetrics
-  ("MultiMetrics.Config", .initOnly),
-  ("MultiMetrics.PromMetrics", .initOnly),
-  ("MultiMetrics.OTelMetrics", .initOnly),
-  ("MultiMetrics.children", .initOnly),
-  ("MultiMetrics.counters", .atomic),
-  ("MultiMetrics.gauges", .atomic),
-  ("MultiMetrics.updowns", .atomic),
-  ("MultiMetrics.stores", .atomic),
-  ("MultiMetrics.metricTypes", .atomic)]
+  (L.«MultiMetrics.Config», .initOnly),
+  (L.«MultiMetrics.PromMetrics», .initOnly),
+  (L.«MultiMetrics.OTelMetrics», .initOnly),
+  (L.«MultiMetrics.children», .initOnly),
+  (L.«MultiMetrics.counters», .atomic),
+  (L.«MultiMetrics.gauges», .atomic),
+  (L.«MultiMetrics.updowns», .atomic),
+  (L.«MultiMetrics.stores», .atomic),
+  (L.«MultiMetrics.metricTypes», .atomic)]
 
 /-- Role of the functions that need one (every function not listed is `any`). -/
-def roles : List (String × Role) := [
+def roles : List (Nat × Role) := [
   -- initialisation: constructors, Start methods and helpers only they call
-  ("InMemCollector.Start", .init),
-  ("NewCollectorWorker", .init),
-  ("StressRelief.Start", .init),
-  ("NewCuckooSentCache", .init),
-  ("NewCuckooTraceChecker", .init),
-  ("Router.LnS", .init),
-  ("Router.SetVersion", .init),
-  ("Router.SetType", .init),
-  ("Router.registerMetricNames", .init),      -- only called by LnS
-  ("Router.SetEnvironmentCache", .init),      -- test helper, before LnS serves
-  ("newEnvironmentCache", .init),
-  ("NewDirectTransmission", .init),
-  ("DirectTransmission.Start", .init),
-  ("DirectTransmission.registerMetrics", .init), -- only called by Start
-  ("RedisPubsubPeers.Start", .init),
-  ("NewConfig", .init),
-  ("newFileConfig", .init),
-  ("ConfigWatcher.Start", .init),
-  ("NewMultiMetrics", .init),
-  ("MultiMetrics.Start", .init),
-  ("MultiMetrics.AddChild", .init),           -- only called by Start
+  (F.«InMemCollector.Start», .init),
+  (F.«NewCollectorWorker», .init),
+  (F.«StressRelief.Start», .init),
+  (F.«NewCuckooSentCache», .init),
+  (F.«NewCuckooTraceChecker», .init),
+  (F.«Router.LnS», .init),
+  (F.«Router.SetVersion», .init),
+  (F.«Router.SetType», .init),
+  (F.«Router.registerMetricNames», .init),      -- only called by LnS
+  (F.«Router.SetEnvironmentCache», .init),      -- test helper, before LnS serves
+  (F.«newEnvironmentCache», .init),
+  (F.«NewDirectTransmission», .init),
+  (F.«DirectTransmission.Start», .init),
+  (F.«DirectTransmission.registerMetrics», .init), -- only called by Start
+  (F.«RedisPubsubPeers.Start», .init),
+  (F.«NewConfig», .init),
+  (F.«newFileConfig», .init),
+  (F.«ConfigWatcher.Start», .init),
+  (F.«NewMultiMetrics», .init),
+  (F.«MultiMetrics.Start», .init),
+  (F.«MultiMetrics.AddChild», .init),           -- only called by Start
   -- tear-down: after every user of the object has been stopped (startstop stops in reverse order)
-  ("DirectTransmission.Stop", .teardown),
-  ("DirectTransmission.Stop$1", .teardown),   -- the sends Stop starts and waits for itself
+  (F.«DirectTransmission.Stop», .teardown),
+  (F.«DirectTransmission.Stop$1», .teardown),   -- the sends Stop starts and waits for itself
   -- the collector worker goroutine (one per CollectorWorker)
-  ("CollectorWorker.collect", .named "worker"),
-  ("CollectorWorker.processSpan", .named "worker"),
-  ("CollectorWorker.processSpan$1", .named "worker"),
-  ("CollectorWorker.sendExpiredTracesInCache", .named "worker"),
-  ("CollectorWorker.sendExpiredTracesInCache$1", .named "worker"),
-  ("CollectorWorker.sendTracesEarly", .named "worker"),
-  ("CollectorWorker.sendTracesEarly$1", .named "worker"),
-  ("CollectorWorker.getLastSpanProcessed", .named "worker"),
-  ("CollectorWorker.makeDecision", .named "worker"),
+  (F.«CollectorWorker.collect», .named worker),
+  (F.«CollectorWorker.processSpan», .named worker),
+  (F.«CollectorWorker.processSpan$1», .named worker),
+  (F.«CollectorWorker.sendExpiredTracesInCache», .named worker),
+  (F.«CollectorWorker.sendExpiredTracesInCache$1», .named worker),
+  (F.«CollectorWorker.sendTracesEarly», .named worker),
+  (F.«CollectorWorker.sendTracesEarly$1», .named worker),
+  (F.«CollectorWorker.getLastSpanProcessed», .named worker),
+  (F.«CollectorWorker.makeDecision», .named worker),
   -- InMemCollector.monitor goroutine
-  ("InMemCollector.monitor", .named "collector-monitor"),
-  ("InMemCollector.checkAlloc", .named "collector-monitor"),
-  ("InMemCollector.isReady", .named "collector-monitor"),
-  ("InMemCollector.reloadConfigs", .named "collector-monitor"),
+  (F.«InMemCollector.monitor», .named collectorMonitor),
+  (F.«InMemCollector.checkAlloc», .named collectorMonitor),
+  (F.«InMemCollector.isReady», .named collectorMonitor),
+  (F.«InMemCollector.reloadConfigs», .named collectorMonitor),
   -- StressRelief's ticker goroutine (the only caller of Recalc)
-  ("StressRelief.Start$2", .named "stress-monitor"),
-  ("StressRelief.Recalc", .named "stress-monitor"),
+  (F.«StressRelief.Start$2», .named stressMonitor),
+  (F.«StressRelief.Recalc», .named stressMonitor),
   -- cuckooSentCache.monitor goroutine (one at a time: Resize stops the old one, waits, starts a new one)
-  ("cuckooSentCache.monitor", .named "sentcache-monitor"),
-  ("CuckooTraceChecker.Maintain", .named "sentcache-monitor")]
+  (F.«cuckooSentCache.monitor», .named sentcacheMonitor),
+  (F.«CuckooTraceChecker.Maintain», .named sentcacheMonitor)]
 
 /-- Accesses of the current tree that violate their field's discipline: each one is a finding
 (signature `C35:race:<field>:<function>:<kind>`), confirmed on the real code by the race-detector
 harness (`harness/cmd/races`). -/
-def knownViolations : List (String × String × AKind) := [
+def knownViolations : List (Nat × Nat × AKind) := [
   -- Resize (worker goroutine, on reload) replaces c.kept while router goroutines read it through
   -- ProcessSpanImmediately → CheckSpan / Record
-  ("cuckooSentCache.kept", "cuckooSentCache.Resize", .write),
+  (L.«cuckooSentCache.kept», F.«cuckooSentCache.Resize», .write),
   -- Reload compares the hashes before taking the lock; concurrent Reloads (ticker + pubsub message)
-  ("fileConfig.mainHash", "fileConfig.Reload", .read),
-  ("fileConfig.rulesHash", "fileConfig.Reload", .read),
+  (L.«fileConfig.mainHash», F.«fileConfig.Reload», .read),
+  (L.«fileConfig.rulesHash», F.«fileConfig.Reload», .read),
   -- the /query/configmetadata endpoint reads the hashes without the lock while Reload writes them
-  ("fileConfig.mainHash", "fileConfig.GetConfigMetadata", .read),
-  ("fileConfig.rulesHash", "fileConfig.GetConfigMetadata", .read),
+  (L.«fileConfig.mainHash», F.«fileConfig.GetConfigMetadata», .read),
+  (L.«fileConfig.rulesHash», F.«fileConfig.GetConfigMetadata», .read),
   -- Reload iterates the callback slice without the lock while RegisterReloadCallback appends
-  ("fileConfig.callbacks", "fileConfig.Reload", .read),
+  (L.«fileConfig.callbacks», F.«fileConfig.Reload», .read),
   -- monitor (own goroutine) creates cw.done; Stop reads it
-  ("ConfigWatcher.done", "ConfigWatcher.monitor", .write),
+  (L.«ConfigWatcher.done», F.«ConfigWatcher.monitor», .write),
   -- every pubsub message runs listen → checkHash in its own goroutine; the peer report reads it too
-  ("RedisPubsubPeers.hash", "RedisPubsubPeers.checkHash", .read),
-  ("RedisPubsubPeers.hash", "RedisPubsubPeers.checkHash", .write),
-  ("RedisPubsubPeers.hash", "RedisPubsubPeers.Ready$1", .read),
+  (L.«RedisPubsubPeers.hash», F.«RedisPubsubPeers.checkHash», .read),
+  (L.«RedisPubsubPeers.hash», F.«RedisPubsubPeers.checkHash», .write),
+  (L.«RedisPubsubPeers.hash», F.«RedisPubsubPeers.Ready$1», .read),
   -- callbacks are appended (by other components' Start) after the subscription is live
-  ("RedisPubsubPeers.callbacks", "RedisPubsubPeers.RegisterUpdatedPeersCallback", .write)]
+  (L.«RedisPubsubPeers.callbacks», F.«RedisPubsubPeers.RegisterUpdatedPeersCallback», .write)]
 
 /-- Unresolved selectors that were inspected by hand and are not accesses to a tracked field. -/
 def reviewedUnresolved : List (String × String) := [
